@@ -31,7 +31,7 @@ NOT_COVERED = ["a8r8g8b8_sRGB", "rgba_float", "rgb_float", "a2r10g10b10", "x2r10
 
 # pixels per row of the test image: at least two 32-bit words of pixels for every bpp
 NPIX = {32: 8, 24: 8, 16: 8, 8: 8, 4: 16, 1: 64}
-WMAX = 8  # scanline width cap of the unrolled scanline jobs
+WMAX = {"quick": 4, "thorough": 8}  # scanline width cap of the unrolled scanline jobs
 
 
 def scan_accessors_table():
@@ -73,25 +73,139 @@ def table_jobs():
                 kind="proof", note=msg, timeout=60) for tag, msg in problems]
 
 
-def jobs(tier):
-    js = table_jobs()
+# one representative per bpp / layout class: what the quick tier runs in the accessor build
+QUICK_ACC = {"a8r8g8b8", "b8g8r8x8", "r8g8b8", "r5g6b5", "a1b5g5r5", "a2r2g2b2", "c8", "a4", "b1g2r1", "a1", "g1"}
+ASSUME_ROW = "image of 2 rows x %d pixels (+1 padding word per row); the accessed pixels lie inside the row (x + width <= image width), as bits_image callers guarantee"
+ASSUME_PAL = ("indexed store: palette.ent[] fixed to the literal pseudo-random table harness/C10/palette_fixed.h "
+              "(a symbolic 32 KB table does not get through the SAT back end); the read side (rgba[]) is fully symbolic")
+
+
+def fmt_jobs(f, bpp, kind, acc, tier):
+    js = []
+    sfx = ".acc" if acc else ""
+    src = "pixman-access-accessors.c (READ/WRITE through read_func/write_func)" if acc else "pixman-access.c"
+    base = {"VF": f, "VF_NPIX": NPIX[bpp]}
+    if acc:
+        base["VF_ACC"] = 1
+    idx = kind != "rgb"
+    row = ASSUME_ROW % NPIX[bpp]
+    dom = "every memory content, every x in the %d-pixel row (all positions inside a 32-bit word), both rows, top-down and bottom-up rowstride%s; %s" % (
+        NPIX[bpp], "; every palette" if idx else "", src)
+    wmax = WMAX.get(tier, 8)
+    common = ["fetch_and_convert_pixel", "convert_and_store_pixel", "convert_pixel", "convert_channel", "get_shifts", "unorm_to_unorm"]
+    js.append(Job("fetch_pixel.%s%s" % (f, sfx), "C10/fetch_pixel.c", defines=base, kind="proof",
+                  functions=["fetch_pixel_" + f] + common, domain=dom, timeout=400, min_props=3, assumptions=[row]))
+    js.append(Job("fetch_scanline.%s%s" % (f, sfx), "C10/fetch_scanline.c", defines=dict(base, VF_WMAX=wmax), unwind=wmax + 1,
+                  kind="bounded", bound="scanline width <= %d (row loop unrolled)" % wmax,
+                  functions=["fetch_scanline_" + f], domain=dom + "; ghost pixel index k < width", timeout=900, min_props=5,
+                  assumptions=[row]))
+    for mode, tag in ((0, "value"), (1, "frame")):
+        d = dict(base, VF_MODE=mode)
+        w = wmax
+        asm = [row]
+        if idx:
+            d["VF_PAL_FIXED"] = 1
+            w = 1 if mode == 0 else 2
+            asm.append(ASSUME_PAL)
+        d["VF_WMAX"] = w
+        js.append(Job("store_%s.%s%s" % (tag, f, sfx), "C10/store_scanline.c", defines=d, unwind=w + 1,
+                      kind="bounded", bound="scanline width <= %d (row loop unrolled)" % w + ("; fixed palette" if idx else ""),
+                      functions=["store_scanline_" + f],
+                      domain=dom + ("; ghost pixel index k < width, every a8r8g8b8 value" if mode == 0 else
+                                    "; ghost bit anywhere in the image memory (both rows and padding)"),
+                      timeout=1200 if idx else 900, min_props=3, assumptions=asm))
+    if not idx:
+        for mode, tag in ((0, "fetch_store"), (1, "store_fetch")):
+            js.append(Job("roundtrip_%s.%s%s" % (tag, f, sfx), "C10/roundtrip.c", defines=dict(base, VF_MODE=mode), unwind=2,
+                          kind="proof", functions=["store_scanline_" + f, "fetch_pixel_" + f],
+                          domain=dom + ("; every a8r8g8b8 value v" if mode == 0 else "; every raw pixel"), timeout=400, min_props=3,
+                          assumptions=[row]))
+    return js
+
+
+def misc_jobs(tier):
+    js = []
+    js.append(Job("lemma.widen_narrow_per_width", "C10/lemmas.c", defines={"VF_LEMMA": 0}, kind="proof",
+                  functions=["spec: SF_WIDEN/SF_NARROW"],
+                  domain="every width 1..8, every pair of field values: WIDEN(0)=0, WIDEN(max)=0xff, (strictly) monotone, NARROW(WIDEN(v))=v, WIDEN = bit replication (bit i of result = bit i mod w of v)",
+                  timeout=300, min_props=8))
+    for f, bpp, kind in FORMATS:
+        js.append(Job("table.%s" % f, "C10/lemmas.c", defines={"VF_LEMMA": 1, "VF": f}, kind="proof",
+                      functions=["spec table row vs PIXMAN_" + f],
+                      domain="constants: PIXMAN_%s announces the bpp / field widths / kind of the literal table; fields disjoint and inside the pixel" % f,
+                      timeout=120, min_props=9))
+        if kind == "rgb":
+            js.append(Job("lemma.roundtrip.%s" % f, "C10/lemmas.c", defines={"VF_LEMMA": 2, "VF": f}, kind="proof",
+                          functions=["spec: SF_WIDEN_PIX/SF_NARROW_PIX of " + f],
+                          domain="every raw pixel: NARROW(WIDEN(p)) == p on defined bits; absent alpha reads 0xff, absent colour 0",
+                          timeout=120, min_props=4))
+    fm = "".join("X(%s)" % f for f, _, _ in FORMATS)
+    ntab = len(FORMATS) + len(ALIASES) + len(NOT_COVERED) + 4
     for acc in (0, 1):
-        sfx = ".acc" if acc else ""
-        accd = {"VF_ACC": 1} if acc else {}
-        for f, bpp, kind in FORMATS:
-            base = dict(accd, VF=f, VF_NPIX=NPIX[bpp])
-            fns = ["fetch_pixel_" + f]
-            js.append(Job("fetch_pixel.%s%s" % (f, sfx), "C10/fetch_pixel.c", defines=base, kind="proof",
-                          functions=fns + ["fetch_and_convert_pixel", "convert_pixel", "unorm_to_unorm"],
-                          domain="every memory content (2^bpp raw values), every x in a %d-pixel row (all positions in a 32-bit word), 2 rows, top-down and bottom-up%s"
-                                 % (NPIX[bpp], "; any palette" if kind != "rgb" else ""),
-                          timeout=300, min_props=3))
+        d = {"VF_PART": 0, "VF_FORMATS": fm}
+        if acc:
+            d["VF_ACC"] = 1
+        js.append(Job("dispatch.table%s" % (".acc" if acc else ""), "C10/dispatch.c", defines=d, unwind=ntab, kind="proof",
+                      functions=["setup_accessors", "_pixman_bits_image_setup_accessors_accessors" if acc else "_pixman_bits_image_setup_accessors"],
+                      domain="each of the %d covered format codes: the installed fetch_scanline_32/fetch_pixel_32/store_scanline_32 are the functions of that format, float paths the generic ones (real table walked, loop unrolled to its end marker)" % len(FORMATS),
+                      timeout=600, min_props=4 * len(FORMATS)))
+    js.append(Job("dispatch.callbacks", "C10/dispatch.c", defines={"VF_PART": 1}, unwind=ntab, kind="proof",
+                  functions=["_pixman_bits_image_setup_accessors", "setup_accessors"],
+                  domain="read_func and/or write_func set => the accessor build's entry point is taken and the direct table installs nothing; unknown format code installs nothing",
+                  timeout=300, min_props=3))
+    js.append(Job("utils.unorm_to_unorm", "C10/utils.c", defines={"VF_UT": 0}, kind="proof", functions=["unorm_to_unorm"],
+                  domain="every 32-bit value, every from,to in 1..16: narrowing keeps the top bits, widening is bit replication", timeout=600, min_props=4))
+    for nb in ((8,) if tier == "quick" else (1, 2, 4, 5, 6, 8, 10, 16)):
+        js.append(Job("utils.float_roundtrip.n%d" % nb, "C10/utils.c", defines={"VF_UT": 1, "VF_NB": nb}, kind="proof",
+                      functions=["float_to_unorm", "unorm_to_float", "pixman_float_to_unorm", "pixman_unorm_to_float"],
+                      domain="every %d-bit u: float_to_unorm(unorm_to_float(u)) == u, 0 -> 0.0, max -> 1.0 (IEEE single, CBMC float model)" % nb,
+                      timeout=600, min_props=4))
+        js.append(Job("utils.float_clamp.n%d" % nb, "C10/utils.c", defines={"VF_UT": 2, "VF_NB": nb}, kind="proof",
+                      functions=["float_to_unorm", "pixman_float_to_unorm"],
+                      domain="every non-NaN float (incl. infinities, denormals): result <= max, f >= 1 -> max, f <= 0 -> 0",
+                      timeout=600, min_props=3, assumptions=["float_to_unorm: NaN input excluded (float -> uint32_t conversion of NaN is undefined behaviour in C; the code has no NaN guard)"]))
+    for ch in ((3, 0) if tier == "quick" else (0, 1, 2, 3)):
+        js.append(Job("utils.expand_contract.ch%d" % ch, "C10/utils.c", defines={"VF_UT": 3, "VF_CH": ch}, unwind=2, kind="proof",
+                      functions=["pixman_expand_to_float", "pixman_contract_from_float"],
+                      domain="every a8r8g8b8 pixel, width 1 (one loop iteration), channel %d: contract(expand(p)) == p" % ch,
+                      timeout=600, min_props=2))
+    return js
+
+
+def jobs(tier):
+    js = table_jobs() + misc_jobs(tier)
+    for f, bpp, kind in FORMATS:
+        js += fmt_jobs(f, bpp, kind, 0, tier)
+        acc = fmt_jobs(f, bpp, kind, 1, tier)
+        if tier == "quick":
+            if kind != "rgb" and f not in ("g4", "c8", "g1"):   # indexed stores: ~60 s each, three of the five in the quick tier
+                js = [j for j in js if not (j.name.startswith("store_") and j.name.endswith("." + f))]
+            if f not in QUICK_ACC:
+                js = [j for j in js if j.name != "roundtrip_store_fetch." + f]
+            acc = [j for j in acc if j.name.startswith("fetch_pixel.") or
+                   (f in QUICK_ACC and kind == "rgb" and j.name.split(".")[0] in ("store_frame", "store_value", "fetch_scanline"))]
+        js += acc
     return js
 
 
 META = {
     "level": "proof",
-    "trusted_base": ["spec/spec_format.h: literal per-format field table (offset/width of a,r,g,b restated by hand from the format names), WIDEN = bit replication as multiplication, NARROW = top bits; little-endian pixel layout"],
-    "assumptions": [],
-    "not_covered": [],
+    "trusted_base": [
+        "spec/spec_format.h: literal per-format field table (offset/width of a,r,g,b restated by hand from the format names), WIDEN = bit replication written as multiplication by 1+2^w+..., NARROW = top bits, little-endian pixel layout; justified by the lemma.* and table.* jobs",
+        "harness/C10/fmt_common.h: hand-built bits_image_t (bits, rowstride, format, indexed, read_func/write_func); accessor build: read_func/write_func stubs that add a fixed displacement (decoy area at image->bits, pixel memory only reachable through the callbacks)",
+    ],
+    "assumptions": [
+        "little-endian x86 layout only (WORDS_BIGENDIAN branches of the FETCH_*/STORE_* macros are not compiled)",
+        "scanline loops of fetch_scanline_<f>/store_scanline_<f> are unrolled (width <= 4 quick / 8 thorough): bounded; fetch_pixel_<f> and the one-pixel round trips are loop-free and cover every x of the row",
+        "row buffer of 8 (32/24/16/8 bpp), 16 (4 bpp) or 64 (1 bpp) pixels: every position of a pixel inside a 32-bit word occurs; pixels accessed lie inside the image row",
+        "indexed formats: read side for every palette; write side (ent[] lookup) only against the fixed pseudo-random palette harness/C10/palette_fixed.h, width <= 1 (value) / 2 (frame); the round trip of indexed formats depends on the palette and is not claimed",
+        "x (unused) bits of a stored pixel are not constrained by the property (the code writes 0 there); 'defined bits' = the fields named in the format",
+        "float converters: CBMC's IEEE-754 single model, round-to-nearest; NaN inputs excluded",
+    ],
+    "not_covered": [
+        "yuy2 / yv12 fetchers", "a2r10g10b10 / x2r10g10b10 / a2b10g10r10 / x2b10g10r10 float accessors", "a8r8g8b8_sRGB (to_linear table, to_srgb search)",
+        "rgba_float / rgb_float accessors", "fetch_scanline_generic_float / store_scanline_generic_float / fetch_pixel_generic_lossy_32 glue (only expand/contract at width 1 are checked)",
+        "big-endian layout", "scanline loops beyond the unrolling bound (no route-D loop contract yet)", "dithering",
+        "MEMSET_WRAPPED and the accessor use outside pixman-access.c (pixman-bits-image.c, pixman-edge-accessors.c)",
+    ],
 }
